@@ -1,0 +1,8 @@
+//go:build !verif
+
+// Package verifhook provides named schedule points used by external
+// verification tooling. Without the "verif" build tag every call is a no-op.
+package verifhook
+
+// Point is a no-op unless built with -tags verif.
+func Point(name string, keys ...string) {}
